@@ -1,4 +1,5 @@
 import TextxVerif.Proofs.RrelSyntaxRange
+import TextxVerif.Proofs.RrelCore
 /-!
 # C12 — printed RREL expressions re-parse to equivalent expressions
 
@@ -29,6 +30,56 @@ re-parsed expression. -/
 theorem C12_eval {α : Type} (ev : Expr → α) (cc : CC) (hs : cc.Sane) (e : Expr) (hw : wfExpr cc e = true) :
     (parse cc (printExpr e)).map ev = some (ev e) := by
   rw [C12_roundtrip cc hs e hw]; rfl
+
+/-- **Evaluation, concretely** (the statement's second sentence).  `evalExpr H n e o ns cls`
+(`TextxVerif/RrelCore.lean`) is `rrel.find(o, ns, e, cls, use_proxy=e.use_proxy)` on the model `H`:
+the object tree `e` is read as the evaluation calculus of C11 (`toCore`: brackets, `*`, the
+`RRELSequence` / `RRELPath` lists, node identities in preorder), the flags decide whether the
+other models are searched (`+m:`, `heapFor`) and whether a proxy with its path is returned
+(`+p:`, `answerOf`), and `Rrel.find` is the search the `C11_*` theorems speak about.
+For every RREL expression, every model, start object, name, class and fuel: the expression
+has an evaluation, and the expression re-parsed from its printed form evaluates to the same
+answer (object, proxy path, unknown, postponed). -/
+theorem C12_eval_find (cc : CC) (hs : cc.Sane) (e : Expr) (hw : wfExpr cc e = true)
+    (H : Rrel.Heap) (n : Nat) (o : Rrel.Obj) (ns : List String) (cls : Option String) :
+    ∃ a, evalExpr H n e o ns cls = some a ∧
+      (parse cc (printExpr e)).bind (fun e' => evalExpr H n e' o ns cls) = some a := by
+  have hc : (toCore e).isSome = true := toCore_isSome (cc := cc) (okf := printable) e (by rw [gwfExpr_printable]; exact hw)
+  obtain ⟨ps, hps⟩ := Option.isSome_iff_exists.mp hc
+  refine ⟨answerOf e.useProxy (Rrel.find (heapFor H e) n ps o ns cls), by simp [evalExpr, hps], ?_⟩
+  rw [C12_roundtrip cc hs e hw]
+  simp [evalExpr, hps]
+
+/-- **Evaluation of parsed expressions**: for every text the parser accepts, the expression
+re-parsed from the printed form evaluates like the parsed one — provided no fixed name ends
+with a backslash (`_partial` for the same reason as `C12_parsed_partial`, C12-KF1). -/
+theorem C12_parsed_eval_partial (cc : CC) (hs : cc.Sane) (s : Str) (e : Expr) (hp : parse cc s = some e)
+    (hb : ∀ f ∈ fixedNames e, endsWithBackslash f = false)
+    (H : Rrel.Heap) (n : Nat) (o : Rrel.Obj) (ns : List String) (cls : Option String) :
+    ∃ a, evalExpr H n e o ns cls = some a ∧
+      (parse cc (printExpr e)).bind (fun e' => evalExpr H n e' o ns cls) = some a :=
+  C12_eval_find cc hs e (wfExpr_of_lexable (parse_sound hp) hb) H n o ns cls
+
+/-- **Core of an expression.** Every RREL expression has a core; it has as many top-level
+alternatives as the expression (at least one), and its node identities are pairwise
+distinct — the hypothesis `hid` of `C11_complete` / `C11_precedence` / `C11_resolves`. -/
+theorem C12_core (cc : CC) (e : Expr) (hw : wfExpr cc e = true) :
+    ∃ ps, toCore e = some ps ∧ ps ≠ [] ∧ (ps.flatMap Rrel.E.ids).Nodup := by
+  have hc : (toCore e).isSome = true := toCore_isSome (cc := cc) (okf := printable) e (by rw [gwfExpr_printable]; exact hw)
+  obtain ⟨ps, hps⟩ := Option.isSome_iff_exists.mp hc
+  refine ⟨ps, hps, coreTop_ne_nil e.seq 0 ps hps ?_, toCore_nodup e ps hps⟩
+  simp only [wfExpr, wfSeq, Bool.and_eq_true, Bool.not_eq_true', List.isEmpty_eq_false_iff] at hw
+  exact hw.2.2
+
+/-- … and so has everything `rrel.parse` returns (fixed names ending with a backslash included). -/
+theorem C12_parsed_core (cc : CC) (s : Str) (e : Expr) (hp : parse cc s = some e) :
+    ∃ ps, toCore e = some ps ∧ ps ≠ [] ∧ (ps.flatMap Rrel.E.ids).Nodup := by
+  have hg := parse_sound hp
+  have hc : (toCore e).isSome = true := toCore_isSome e hg
+  obtain ⟨ps, hps⟩ := Option.isSome_iff_exists.mp hc
+  refine ⟨ps, hps, coreTop_ne_nil e.seq 0 ps hps ?_, toCore_nodup e ps hps⟩
+  simp only [gwfExpr, gwfSeq, Bool.and_eq_true, Bool.not_eq_true', List.isEmpty_eq_false_iff] at hg
+  exact hg.2.2
 
 /-- **Sub-expressions.** A printed sequence is read back in every context in
 which a sequence can stand (end of text or a closing bracket follows), with any
@@ -112,6 +163,32 @@ example : parse asciiCC (printExpr sample) = some sample := C12_roundtrip _ asci
 /-- the parser accepts layout the printer never writes; printing normalises it -/
 example : (parse asciiCC " +mp: .. a . ( ~ b , 'x y' ~c )* . parent ( T ) , (d) ".toList).map printExpr =
     some "+mp:..a.(~b,'x y'~c)*.parent(T),(d)".toList := by decide +kernel
+/-- the core of the sample: brackets → two guarded nodes, `*` → `star` over the sequence node,
+identities 0 … 10 in preorder; the fixed name becomes a `fixed` step -/
+example : toCore sample = some
+    [.cat (.atom 0 (.dots 2)) (.cat (.atom 1 (.nav "a" .consume))
+      (.cat (.star 2 (.grp 3 (.alt (.atom 4 (.nav "b" .tilde)) (.atom 5 (.nav "c" (.fixed "x y"))))))
+        (.atom 6 (.parent "T")))),
+     .grp 7 (.grp 8 (.atom 9 (.nav "d" .consume)))] := by decide
+example : sample.importURI = true ∧ sample.useProxy = true ∧ wFlags.importURI = false := by decide
+/-- not an object tree: no core (never a default) -/
+example : toCore ⟨[[]], []⟩ = none ∧ toCore ⟨[[.brackets []]], []⟩ = none ∧
+    toCore ⟨[[.nav ['a'] true (some ['x'])]], []⟩ = none := by decide
+/-- `+p:a.~r` on a two-object model: the proxy path ends in the target although the last step
+is not a name step; without `+p:` the object itself is returned -/
+def evH : Rrel.Heap where
+  parent o := if o = 0 then none else some 0
+  attr o a := if o = 0 ∧ a = "a" then some [1] else if o = 1 ∧ a = "r" then some [2] else some []
+  name o := if o = 1 then some "x" else if o = 2 then some "y" else none
+  conf _ _ := true
+  extra := []
+  depth := 3
+example : evalExpr evH 9 ⟨[[.nav ['a'] true none, .nav ['r'] false none]], ['p']⟩ 0 ["x"] none
+      = some (.proxy [1, 2]) ∧
+    evalExpr evH 9 ⟨[[.nav ['a'] true none, .nav ['r'] false none]], []⟩ 0 ["x"] none
+      = some (.obj 2) ∧
+    evalExpr evH 9 ⟨[[.nav ['a'] true none, .nav ['r'] false none]], []⟩ 0 ["z"] none
+      = some .unknown := by decide
 /-- `^` is the notation for `(..)*` -/
 example : parse asciiCC "^a".toList = some ⟨[[.star [[.dots 2]], .nav ['a'] true none]], []⟩ := by rfl
 example : parse asciiCC "a**".toList = none := by rfl
